@@ -17,7 +17,8 @@ def labelledRenderOp (lawOf : String → Option String) (args : List String) : S
 /-- `c08`: metamorphic laws evaluated by the harness on the implementation alone -/
 def c08Op := labelledRenderOp fun k =>
   if k == "ISOLATION" then some "render-changed-the-callers-variables"
-  else if k == "ARGS-ONLY" then some "render-output-depends-on-the-caller" else none
+  else if k == "ARGS-ONLY" then some "render-output-depends-on-the-caller"
+  else if k == "FOR-AS" then some "render-for-iterations-are-not-independent-renders" else none
 def c09Op := labelledRenderOp fun k =>
   if k == "LEAK" then some "result-depends-on-history" else if k == "DATA-MODIFIED" then some "caller-data-untouched" else none
 def c19Op := labelledRenderOp fun k =>
